@@ -102,7 +102,7 @@ func ruleC16Space(c *ctx.Ctx, r *core.Reporter) {
 		return
 	}
 	s := squash(nodeString(c, rw.Body))
-	r.Check(strings.Contains(s, "if(!needsSpace(previous)||!needsSpace(b[1]))&&!(previous=='-'&&b[1]=='-'){b=b[1:]continue}"), "drop-condition", c.Pos(rw.Pos()), "a blank is dropped only if one neighbour is not identifier-class and the neighbours are not `-` `-` (which would become a decrement)")
+	r.Check(hasGoPattern(rw.Body, `if (!needsSpace(µp) || !needsSpace(µb[1])) && !(µp == '-' && µb[1] == '-') { µb = µb[1:]; continue }`), "drop-condition", c.Pos(rw.Pos()), "a blank is dropped only if one neighbour is not identifier-class and the neighbours are not `-` `-` (which would become a decrement)")
 	r.Check(strings.Contains(s, "if!minify{returnb}"), "noop-without-minify", c.Pos(rw.Pos()), "without minification the code is returned unchanged")
 	if arm := armOf(rw, `'"'`); arm != nil {
 		t := squash(nodeString(c, arm))
@@ -205,11 +205,32 @@ func ruleC16Lex(c *ctx.Ctx, r *core.Reporter) {
 // checkPreviousIsCodeByte: the byte that decides whether a blank may be dropped is the last CODE byte
 // emitted; bytes of a source-map hint (copied verbatim by the hint arm) must never become `previous`.
 func checkPreviousIsCodeByte(c *ctx.Ctx, r *core.Reporter, rw *ast.FuncDecl) {
+	// the "previous byte" variable is the one the drop condition tests together with the next input byte;
+	// the input is the function's first parameter
+	prevName, inName := "", firstParamName(rw)
+	for _, m := range findGoPattern(rw.Body, `!needsSpace(µp) || !needsSpace(µb[1])`) {
+		if m.Env["µb"] == inName {
+			prevName = m.Env["µp"]
+		}
+	}
+	if prevName == "" {
+		r.Violation("previous-is-last-code-byte", c.Pos(rw.Pos()), "the drop condition `!needsSpace(<previous>) || !needsSpace(<input>[1])` was not found")
+		return
+	}
 	// declared once, outside the loop
 	declOutside := false
 	for _, st := range rw.Body.List {
-		if ds, ok := st.(*ast.DeclStmt); ok && strings.Contains(nodeString(c, ds), "previous") {
-			declOutside = true
+		if ds, ok := st.(*ast.DeclStmt); ok {
+			ast.Inspect(ds, func(n ast.Node) bool {
+				if vs, ok := n.(*ast.ValueSpec); ok {
+					for _, nm := range vs.Names {
+						if nm.Name == prevName {
+							declOutside = true
+						}
+					}
+				}
+				return true
+			})
 		}
 	}
 	var bad []string
@@ -218,9 +239,9 @@ func checkPreviousIsCodeByte(c *ctx.Ctx, r *core.Reporter, rw *ast.FuncDecl) {
 		switch x := n.(type) {
 		case *ast.AssignStmt:
 			for i, l := range x.Lhs {
-				if id, ok := l.(*ast.Ident); ok && id.Name == "previous" && i < len(x.Rhs) {
+				if id, ok := l.(*ast.Ident); ok && id.Name == prevName && i < len(x.Rhs) {
 					nAssign++
-					if exprStr(x.Rhs[i]) != "b[0]" {
+					if exprStr(x.Rhs[i]) != inName+"[0]" {
 						bad = append(bad, "previous = "+exprStr(x.Rhs[i])+" at "+c.Pos(x.Pos()))
 					}
 					for _, cd := range enclosingConds(rw.Body, x.Pos()) {
@@ -232,7 +253,7 @@ func checkPreviousIsCodeByte(c *ctx.Ctx, r *core.Reporter, rw *ast.FuncDecl) {
 			}
 		case *ast.ValueSpec:
 			for i, nm := range x.Names {
-				if nm.Name == "previous" && i < len(x.Values) {
+				if nm.Name == prevName && i < len(x.Values) {
 					bad = append(bad, "previous initialised from "+exprStr(x.Values[i]))
 				}
 			}
